@@ -13,7 +13,7 @@ def run(tier, rep):
             tasks.append(dict(src=s))  # all 3 modes x prune
         else:
             tasks.append(dict(src=s, modes=(("MCS", "GENERATIONAL", "TOPOLOGICAL")[(i + sd) % 3],), prunes=(bool((i + sd) % 2),)))
-    with Pool() as pool:
+    with Pool(maxtasks=6) as pool:
         results = list(pool.imap("vf.compiled_tasks", "c01_task", tasks))
     _collect(rep, results, "replays")
     rep.section("family", sources=[s["name"] for s in srcs], episodes_per_source="1-3 (ragged)", variants="3 supergraph modes x prune on the core sources; one rotated variant on the family slice" if tier == "quick" else "3 modes x prune everywhere")
